@@ -71,6 +71,8 @@ impl DifficultyValues {
             .take(take);
 
         let diff_objects = Self::create_difficulty_objects(clock_rate, mania_objects);
+        #[cfg(rosu_pp_verif)]
+        crate::verif::view_probe::report_slice(0, 3, &diff_objects);
 
         let mut strain = Strain::new(total_columns as usize);
 
